@@ -99,9 +99,36 @@ def ins_corpus(tier, seed):
     return specs
 
 
+def capped_at_natural_stop(tier, seed):
+    """Histories whose iteration cap EQUALS the iteration at which the run converges anyway: the loop is left
+    through the max_iteration break in the very iteration in which the condition drops below the tolerance; the
+    run must still be finalised (runs are reproducible by seed, so an uncapped run tells the iteration)."""
+    import os
+
+    from .common import Scratch
+    from .nsruns import run_corpus
+    from .pack import load_events
+
+    base = [("gauss2", seed * 1000 + 741, 50, {}), ("hole2", seed * 1000 + 742, 25, {"stopping": 0.5})]
+    if tier != "quick":
+        base += [("rosen2", seed * 1000 + 743, 50, {}), ("nonuni2", seed * 1000 + 744, 20, {"stopping": 1.0})]
+    out = []
+    with Scratch("c15pre-") as scratch:
+        hs = run_corpus([std_spec(m, sd, n, **kw) for m, sd, n, kw in base], scratch / "pre")
+        for (m, sd, n, kw), h in zip(base, hs):
+            if h["codes"][-1] != 0:
+                continue
+            done = [e for e in load_events([f for f in h["events"] if os.path.exists(f)]) if e["ev"] == "done"]
+            if not done or not done[-1].get("fin"):
+                continue
+            out.append(std_spec(m, sd, n, max_iteration=int(done[-1]["it"]), run_again=1, resume_after_done=1, **kw))
+    return out
+
+
 def main(tier: str) -> int:
     seed = seed_from_env()
-    return run_property(PROP, tier, corpus(tier, seed), sig_of=sig_of, capit=2, ins_specs=ins_corpus(tier, seed), ins_scripted=True,
+    return run_property(PROP, tier, corpus(tier, seed) + capped_at_natural_stop(tier, seed), sig_of=sig_of, capit=2,
+                        ins_specs=ins_corpus(tier, seed), ins_scripted=True,
                         scripted=True,
                         note="Every iteration logs the condition compared with the tolerance; an iteration event is "
                              "only legal while the previous condition exceeded the tolerance, finalise only when it no "
